@@ -43,6 +43,11 @@ Fixpoint c11_run (s : c11st) (tr : list tev) : bool :=
 
 Definition P_C11 (tr : list tev) : bool := c11_run (mk_c11 [] None) tr.
 
+(* recorded finding D27: in ObjectsBeingTransferred mode Fdt::get_next_file_transfer publishes right
+   after starting a transfer and drops the error; when that publish fails the object goes out
+   unannounced.  The class: not FullFDT mode and some publish failed during the scenario. *)
+Definition known_D27 (full publish_failed : bool) : bool := negb full && publish_failed.
+
 (* ================= C12 ================= *)
 Record c12obj := mk_c12o {
   x_toi : N; x_npk : nat; x_max : N; x_car : bool; x_allow : bool;
